@@ -19,12 +19,19 @@ def competitor_scenario(r, coin="bitcoin", callback="csvdump", T=None, kinds=Non
     scripts = lambda rr, c: GC.spk(rr, c, rr.choice(["p2pkh", "p2pkh", "p2sh", "opreturn"]))
     active = GC.gen_chain(r, coin, T + 1, max_txs=2, max_io=2, scripts=scripts, auxpow_mix=False)
     s = K.Scenario(coin=coin, callback=callback)
-    per_file = r.choice([None, 2, 3])
-    GC.simple_layout(s, active, per_file=per_file)
-    # competitors' data goes to a separate file (and sometimes into a file of the active chain)
     comp_heights = []
-    comp_file_no = 7
-    comp_name = K.blkname(comp_file_no)
+    if r.random() < 0.4:
+        # competitors' data sits at the FRONT of the very files the active chain jumps between (a stale block is the first
+        # record of a file that is left and re-entered)
+        names = GC.interleaved_layout(s, active, r, nfiles=r.choice([2, 3]), reserve=40000)
+        comp_file_no = r.randrange(len(names))
+        comp_name = names[comp_file_no]
+    else:
+        per_file = r.choice([None, 2, 3])
+        GC.simple_layout(s, active, per_file=per_file)
+        # competitors' data goes to a separate file
+        comp_file_no = 7
+        comp_name = K.blkname(comp_file_no)
     pos = [0]
     notes = []
 
